@@ -227,6 +227,11 @@ def descendants_table(ctx, gm):
             continue
         ev = loops[0]
         elem = _loop_elem(ev)
+        # `for p, o in sorted(self.exports.items())`: the path is the first
+        # component of the element
+        if contains(ev[3], lambda x: kind(x) == 'call' and
+                    kind(x[2]) == 'attr' and x[2][2] == 'items'):
+            elem = ('sub', elem, C(0))
         for exported, queried, beneath, _child in PAIRS:
             got = set()
             for bp in ev[4]:
